@@ -86,7 +86,8 @@ def check_property(prop, tier, seed, only=None, keep=False, write_evidence=True)
             (ft, zf, grp), gobs = item
             tmo = max(o["timeout"] for o in gobs) * (3 if tier == "thorough" else 1)
             names = [o["harness"] for o in gobs]
-            jobs = max(2, min(len(names), (verif.NCPU * len(names)) // max(1, total_h) + 1))
+            # oversubscribe rather than leave cores idle when a group finishes early
+            jobs = max(2, min(len(names), max(verif.NCPU // 2, (verif.NCPU * len(names)) // max(1, total_h) + 1)))
             jobs = min(jobs, min(o.get("jobs_cap", verif.NCPU) for o in gobs))
             log("[kani] %s %s %s: %d harnesses (timeout %ds, -j %d)" % (ft, " ".join(zf), grp, len(names), tmo, jobs))
             tdir = os.path.join(scratch, "target-%s-%s-%s" % (ft, "_".join(zf), grp))
